@@ -23,13 +23,13 @@ var transportErr error = &tErr{}
 // recTransport records what reaches the transport. Write k (1-based) fails when failAt == k.
 // With gate set, a Write parks (visible to the scheduler) until *gate becomes true.
 type recTransport struct {
-	log      []byte
-	writes   int
-	failAt   int
-	inWrite  bool
-	reenter  bool
-	gate     *bool
-	parked   bool
+	log       []byte
+	writes    int
+	failAt    int
+	inWrite   bool
+	reenter   bool
+	gate      *bool
+	parked    bool
 	afterTerm *Stream // if set, record whether a write started after the stream finished
 	lateWrite bool
 }
